@@ -4,6 +4,7 @@ pub mod alloc_sm;
 pub mod c02;
 pub mod c03;
 pub mod c04;
+pub mod c05;
 pub mod c06;
 pub mod c07;
 pub mod c08;
@@ -19,9 +20,11 @@ pub mod c19;
 pub mod c20;
 pub mod c21;
 pub mod c22;
+pub mod c23;
 pub mod c24;
 pub mod c25;
 pub mod c29;
+pub mod c30;
 pub mod c31;
 pub mod progcase;
 
@@ -32,6 +35,7 @@ pub fn registry() -> Vec<(&'static str, CheckFn)> {
         ("C02", c02::run as CheckFn),
         ("C03", c03::run as CheckFn),
         ("C04", c04::run as CheckFn),
+        ("C05", c05::run as CheckFn),
         ("C06", c06::run as CheckFn),
         ("C07", c07::run as CheckFn),
         ("C08", c08::run as CheckFn),
@@ -47,9 +51,11 @@ pub fn registry() -> Vec<(&'static str, CheckFn)> {
         ("C20", c20::run as CheckFn),
         ("C21", c21::run as CheckFn),
         ("C22", c22::run as CheckFn),
+        ("C23", c23::run as CheckFn),
         ("C24", c24::run as CheckFn),
         ("C25", c25::run as CheckFn),
         ("C29", c29::run as CheckFn),
+        ("C30", c30::run as CheckFn),
         ("C31", c31::run as CheckFn),
     ]
 }
